@@ -37,6 +37,7 @@ type Runner struct {
 	B          *model.Behaviour
 	Pal        *palette.Palette
 	Cache      int
+	Sync       bool // commit with WriteSync
 	Flush      int
 	Probe      bool // run the read probes after every step
 	SnapImages bool // copy the store after every physical write (crash images)
@@ -52,7 +53,7 @@ type Runner struct {
 }
 
 func (r *Runner) opts() []iavl.Option {
-	o := []iavl.Option{iavl.FlushThresholdOption(r.Flush)}
+	o := []iavl.Option{iavl.FlushThresholdOption(r.Flush), iavl.SyncOption(r.Sync)}
 	if r.iv != 0 {
 		o = append(o, iavl.InitialVersionOption(uint64(r.iv)))
 	}
